@@ -183,9 +183,8 @@ func (server *SugarDB) handleCommand(ctx context.Context, message []byte, conn *
 
 		verifhook.Point("cmd.after_handler")
 		if internal.IsWriteCommand(command, subCommand) && !replay {
-			server.connInfo.mut.RLock()
-			server.aofEngine.LogCommand(server.connInfo.tcpClients[conn].Database, message)
-			server.connInfo.mut.RUnlock()
+			// Log the command under the database it was executed in (TCP or embedded caller alike).
+			server.aofEngine.LogCommand(ctx.Value("Database").(int), message)
 			verifhook.Point("cmd.after_log")
 		}
 
